@@ -122,6 +122,9 @@ fire("C10", "field read in a constructor helper before it is assigned", "R1.defi
       "        super().__init__(points, weights, shape)\n        self._axes = axes\n\n    @classmethod\n    def from_molecule"))
 fire("C10", "points setter no longer checks the shape", "R3b.setter-keeps-shape",
      ("sub", "basegrid.py", "        if value.shape != self._points.shape:\n", "        if False:\n"))
+fire("C10", "integer index converted to slice(i, i + 1) (empty selection for -1)", "R8.integer-to-slice",
+     ("sub", "periodicgrid.py", "        if isinstance(index, (int, np.integer)):\n            return self.__class__(\n                np.array([self.points[index]]),\n                np.array([self.weights[index]]),\n                self.realvecs,\n            )\n        else:\n",
+      "        if isinstance(index, (int, np.integer)):\n            index = slice(index, index + 1)\n        if True:\n"))
 silent("C10", "union-type spelling of the integer test",
        ("sub", "basegrid.py", "        if isinstance(index, (int, np.integer)):\n", "        if isinstance(index, int | np.integer):\n", 2))
 silent("C10", "emptiness guard instead of integer dtype",
@@ -157,6 +160,15 @@ fire("C12", "data file removed", "O4.file-for-pair", ("rm", "data/lebedev/lebede
 fire("C12", "inverse table built from another table", "O2.inverse-table",
      ("sub", "angular.py", "SPHERICAL_DEGREES = dict([(v, k) for k, v in SPHERICAL_NPOINTS.items()])\n",
       "SPHERICAL_DEGREES = dict([(v, k) for k, v in LEBEDEV_NPOINTS.items()])\n"))
+fire("C12", "bisect position advanced past some grids (statement form)", "O3.lower-bound-idiom",
+     ("sub", "angular.py", "            degree = degree if degree in dict_degrees else ang_degs[bisect_left(ang_degs, degree)]\n",
+      "            if degree not in dict_degrees:\n                pos = bisect_left(ang_degs, degree)\n                if ang_degs[pos] % 2 == 0:\n                    pos += 1\n                degree = ang_degs[pos]\n"))
+silent("C12", "lookup written in statement form",
+       ("sub", "angular.py", "            degree = degree if degree in dict_degrees else ang_degs[bisect_left(ang_degs, degree)]\n",
+        "            if degree not in dict_degrees:\n                pos = bisect_left(ang_degs, degree)\n                degree = ang_degs[pos]\n"))
+fire("C12", "vectorised converter clamps out-of-range sizes", "O5.converter-positions",
+     ("sub", "angular.py", "        degrees = np.zeros(len(sizes), dtype=int)\n        for size in np.unique(sizes):\n",
+      "        keys = np.array(list(LEBEDEV_NPOINTS.keys()))\n        vals = np.array(list(LEBEDEV_NPOINTS.values()))\n        return vals[np.minimum(np.searchsorted(keys, sizes), len(keys) - 1)]\n        degrees = np.zeros(len(sizes), dtype=int)\n        for size in np.unique(sizes):\n"))
 silent("C12", "bisect_left replaced by np.searchsorted(side='left')",
        ("sub", "angular.py", "ang_degs[bisect_left(ang_degs, degree)]", "ang_degs[np.searchsorted(ang_degs, degree, side=\"left\")]"))
 silent("C12", "membership shortcut removed (plain bisect_left)",
